@@ -580,12 +580,18 @@ theorem write_head (F : ExtFloat) (v : JVal) (h : wellFormed v = true) :
   | arr xs => exact ⟨0x5B, _, rfl, by decide, by decide, by decide, by decide⟩
   | obj es => exact ⟨0x7B, _, rfl, by decide, by decide, by decide, by decide⟩
 
+/-- Values whose end is only visible from the next byte (floats are excluded
+from the round-trip statements altogether). -/
+def isIntVal : JVal → Bool
+  | .int _ => true
+  | _ => false
+
 /-- What parsing `write F v ++ rest` must give at remaining depth `d`. -/
 def expectV (v : JVal) (d : Nat) (rest : List Nat) : Except Err (JVal × List Nat) :=
   if depthOf v < d then .ok (v, rest) else .error .recursionLimit
 
 theorem parse_write_all (F : ExtFloat) :
-    (∀ v, wellFormed v = true → ∀ d rest, 0 < d → numEnd rest = true →
+    (∀ v, wellFormed v = true → ∀ d rest, 0 < d → (isIntVal v = true → numEnd rest = true) →
       parseValue d (write F v ++ rest) = expectV v d rest) ∧
     (∀ first es, wellFormedEntries es = true → ∀ d rest, 0 < d →
       parseEntries d first (writeEntries F first es ++ 0x7D :: rest) =
@@ -594,7 +600,7 @@ theorem parse_write_all (F : ExtFloat) :
       parseElems d first (writeElems F first xs ++ 0x5D :: rest) =
         if depthOfList xs < d then .ok (xs, rest) else .error .recursionLimit) := by
   apply write.mutual_induct
-    (motive_1 := fun v => wellFormed v = true → ∀ d rest, 0 < d → numEnd rest = true →
+    (motive_1 := fun v => wellFormed v = true → ∀ d rest, 0 < d → (isIntVal v = true → numEnd rest = true) →
       parseValue d (write F v ++ rest) = expectV v d rest)
     (motive_2 := fun first es => wellFormedEntries es = true → ∀ d rest, 0 < d →
       parseEntries d first (writeEntries F first es ++ 0x7D :: rest) =
@@ -611,6 +617,7 @@ theorem parse_write_all (F : ExtFloat) :
     simp [parseValue_eq, write, skipWs, isWs, classify, ident, expectV, depthOf, hd]
   · -- int
     intro i hwf d rest hd hrest
+    have hrest := hrest rfl
     simp only [wellFormed, decide_eq_true_eq] at hwf
     simp only [write, intDec, expectV, depthOf, hd, if_true]
     split
@@ -691,7 +698,7 @@ theorem parse_write_all (F : ExtFloat) :
       | nil => simp [writeElems, numEnd, isDigit]
       | cons y ys => simp [writeElems, numEnd, isDigit]
     obtain ⟨b, t, hb, hws, hb1, _, _⟩ := write_head F x hwf.1
-    have hx := ih1 hwf.1 d _ hd htail
+    have hx := ih1 hwf.1 d _ hd (fun _ => htail)
     have hxs := ih2 hwf.2 d rest hd
     rw [hb] at hx
     simp only [List.cons_append] at hx
@@ -735,7 +742,7 @@ theorem parse_write_all (F : ExtFloat) :
       cases es with
       | nil => simp [writeEntries, numEnd, isDigit]
       | cons y ys => obtain ⟨ky, vy⟩ := y; simp [writeEntries, numEnd, isDigit]
-    have hv := ih1 hwf.1.2 d _ hd htail
+    have hv := ih1 hwf.1.2 d _ hd (fun _ => htail)
     have hes := ih2 hwf.2 d rest hd
     have hk := parseStr_writeStr k (0x3A :: (write F v ++ (writeEntries F false es ++ 0x7D :: rest))) hwf.1.1
     have e : writeEntries F first ((k, v) :: es) ++ 0x7D :: rest =
@@ -1083,7 +1090,7 @@ theorem readerLoop_write (F : ExtFloat) (v : JVal) (l : List Nat) (hwf : wellFor
       if depthOf v < depthLimit then (v :: (readerLoop l).1, (readerLoop l).2)
       else ([], .err .recursionLimit) := by
   obtain ⟨b, t, hb, hws, _⟩ := write_head F v hwf
-  have hp := (parse_write_all F).1 v hwf depthLimit (0x0A :: l) (by decide) (by simp [numEnd, isDigit])
+  have hp := (parse_write_all F).1 v hwf depthLimit (0x0A :: l) (by decide) (fun _ => by simp [numEnd, isDigit])
   rw [readerLoop_eq]
   rw [hb] at hp ⊢
   simp only [List.cons_append] at hp ⊢
@@ -1098,7 +1105,7 @@ theorem sliceDocs_write (F : ExtFloat) (v : JVal) (l : List Nat) (hwf : wellForm
       if depthOf v < depthLimit then (v :: (sliceDocs l).1, (sliceDocs l).2)
       else ([], .err .recursionLimit) := by
   obtain ⟨b, t, hb, hws, _⟩ := write_head F v hwf
-  have hp := (parse_write_all F).1 v hwf depthLimit (0x0A :: l) (by decide) (by simp [numEnd, isDigit])
+  have hp := (parse_write_all F).1 v hwf depthLimit (0x0A :: l) (by decide) (fun _ => by simp [numEnd, isDigit])
   rw [sliceDocs_eq]
   rw [hb] at hp ⊢
   simp only [List.cons_append] at hp ⊢
@@ -1188,6 +1195,548 @@ theorem slice_reader_aux : ∀ (n : Nat) (bs : List Nat), bs.length ≤ n →
           rcases hu.1 with h1 | h1
           · rw [h1] at hc; simp at hc
           · rw [h1] at hc; simp at hc
+
+
+/-! ## What a successful parse consumed is well-formed UTF-8 -/
+
+/-- `bs` is `rest` preceded by a well-formed UTF-8 prefix. -/
+def Consumes (bs rest : List Nat) : Prop := ∃ pre, bs = pre ++ rest ∧ u8run .acc pre = .acc
+
+theorem Consumes.refl (bs : List Nat) : Consumes bs bs := ⟨[], rfl, rfl⟩
+
+theorem Consumes.trans {a b c : List Nat} (h1 : Consumes a b) (h2 : Consumes b c) : Consumes a c := by
+  obtain ⟨p1, rfl, v1⟩ := h1
+  obtain ⟨p2, rfl, v2⟩ := h2
+  exact ⟨p1 ++ p2, by simp, u8_append v1 v2⟩
+
+theorem Consumes.ascii {pre rest : List Nat} (h : ∀ b ∈ pre, b < 0x80) : Consumes (pre ++ rest) rest :=
+  ⟨pre, rfl, u8run_ascii pre h⟩
+
+theorem Consumes.cons {b : Nat} {rest : List Nat} (h : b < 0x80) : Consumes (b :: rest) rest :=
+  Consumes.ascii (pre := [b]) (by simpa using h)
+
+theorem isWs_lt {b : Nat} (h : isWs b = true) : b < 0x80 := by
+  simp [isWs] at h; omega
+
+theorem skipWs_consumes (bs : List Nat) : Consumes bs (skipWs bs) := by
+  induction bs with
+  | nil => exact Consumes.refl _
+  | cons b bs ih =>
+    unfold skipWs
+    split
+    · rename_i h; exact (Consumes.cons (isWs_lt h)).trans ih
+    · exact Consumes.refl _
+
+theorem ident_consumes {es bs rest : List Nat} (hes : ∀ e ∈ es, e < 0x80) (h : ident es bs = .ok rest) :
+    Consumes bs rest := by
+  induction es generalizing bs with
+  | nil => simp [ident] at h; subst h; exact Consumes.refl _
+  | cons e es ih =>
+    cases bs with
+    | nil => simp [ident] at h
+    | cons b bs =>
+      simp only [ident] at h
+      split at h
+      · rename_i hb
+        have : b < 0x80 := by rw [hb]; exact hes e (by simp)
+        exact (Consumes.cons this).trans (ih (fun x hx => hes x (by simp [hx])) h)
+      · simp at h
+
+theorem isDigit_lt {b : Nat} (h : isDigit b = true) : b < 0x80 := by
+  simp [isDigit] at h; omega
+
+theorem takeDigits_consumes (bs : List Nat) : Consumes bs (takeDigits bs).2 := by
+  induction bs with
+  | nil => exact Consumes.refl _
+  | cons b bs ih =>
+    unfold takeDigits
+    split
+    · rename_i h; exact (Consumes.cons (isDigit_lt h)).trans ih
+    · exact Consumes.refl _
+
+theorem lexInt_consumes {bs ip r : List Nat} (h : lexInt bs = .ok (ip, r)) : Consumes bs r := by
+  unfold lexInt at h
+  split at h
+  · simp at h
+  · rename_i b rest
+    split at h
+    · rename_i hb
+      have hb' : b < 0x80 := by omega
+      split at h
+      · simp at h; obtain ⟨_, rfl⟩ := h; exact Consumes.cons hb'
+      · split at h <;> simp at h
+        obtain ⟨_, rfl⟩ := h; exact Consumes.cons hb'
+    · split at h
+      · simp only [Except.ok.injEq] at h
+        have := takeDigits_consumes (b :: rest)
+        rw [h] at this; exact this
+      · simp at h
+
+theorem lexFrac_consumes {bs r : List Nat} {fp : Option (List Nat)} (h : lexFrac bs = .ok (fp, r)) :
+    Consumes bs r := by
+  unfold lexFrac at h
+  split at h
+  · simp at h; obtain ⟨_, rfl⟩ := h; exact Consumes.refl _
+  · rename_i b r0
+    split at h
+    · rename_i hb
+      have := takeDigits_consumes r0
+      split at h
+      · simp at h
+      · simp at h
+      · rename_i d ds r2 heq
+        simp at h; obtain ⟨_, rfl⟩ := h
+        rw [heq] at this
+        exact (Consumes.cons (by omega)).trans this
+    · simp at h; obtain ⟨_, rfl⟩ := h; exact Consumes.refl _
+
+theorem expSign_consumes (r : List Nat) : Consumes r (expSign r).2 := by
+  unfold expSign
+  split
+  · exact Consumes.refl _
+  · split
+    · rename_i h; exact Consumes.cons (by omega)
+    · exact Consumes.refl _
+
+theorem lexExp_consumes {bs r : List Nat} {ex : Option (List Nat × Bool × List Nat)}
+    (h : lexExp bs = .ok (ex, r)) : Consumes bs r := by
+  unfold lexExp at h
+  split at h
+  · simp at h; obtain ⟨_, rfl⟩ := h; exact Consumes.refl _
+  · rename_i e r0
+    split at h
+    · rename_i he
+      have hs := expSign_consumes r0
+      split at h
+      · simp at h
+      · rename_i c r3 heq
+        split at h
+        · simp at h; obtain ⟨_, rfl⟩ := h
+          rw [heq] at hs
+          exact ((Consumes.cons (by omega)).trans hs).trans (takeDigits_consumes _)
+        · simp at h
+    · simp at h; obtain ⟨_, rfl⟩ := h; exact Consumes.refl _
+
+theorem lexNumber_consumes {p : Bool} {bs : List Nat} {n : Num} {src rest : List Nat}
+    (h : lexNumber p bs = .ok (n, src, rest)) : Consumes bs rest := by
+  unfold lexNumber at h
+  split at h
+  · simp at h
+  · rename_i ip r1 h1
+    split at h
+    · simp at h
+    · rename_i fp r2 h2
+      split at h
+      · simp at h
+      · rename_i ex r3 h3
+        split at h
+        · simp at h
+        · simp at h; obtain ⟨_, _, rfl⟩ := h
+          exact ((lexInt_consumes h1).trans (lexFrac_consumes h2)).trans (lexExp_consumes h3)
+
+theorem hexVal_lt {b n : Nat} (h : hexVal b = some n) : b < 0x80 ∧ n < 16 := by
+  unfold hexVal at h
+  split at h
+  · simp at h; omega
+  · split at h
+    · simp at h; omega
+    · split at h
+      · simp at h; omega
+      · simp at h
+
+theorem hexEscape_consumes {bs rest : List Nat} {n : Nat} (h : hexEscape bs = .ok (n, rest)) :
+    Consumes bs rest ∧ n < 65536 := by
+  unfold hexEscape at h
+  split at h
+  · rename_i a b c d r
+    unfold hex4 at h
+    split at h
+    · rename_i n' hn
+      split at hn
+      · rename_i x y z w ha hb hc hd
+        simp at hn h
+        obtain ⟨rfl, rfl⟩ := h
+        have := hexVal_lt ha; have := hexVal_lt hb; have := hexVal_lt hc; have := hexVal_lt hd
+        refine ⟨Consumes.ascii (pre := [a, b, c, d]) (by simp; omega), by omega⟩
+      · simp at hn
+    · simp at h
+  · simp at h
+
+theorem unicodeEscape_spec {bs out rest : List Nat} (h : unicodeEscape bs = .ok (out, rest)) :
+    Consumes bs rest ∧ ∃ c, isScalar c = true ∧ out = utf8 c := by
+  unfold unicodeEscape at h
+  split at h
+  · simp at h
+  · rename_i n r0 h0
+    obtain ⟨hc0, hn⟩ := hexEscape_consumes h0
+    split at h
+    · simp at h
+    · rename_i hns
+      split at h
+      · rename_i hb
+        simp at h; obtain ⟨rfl, rfl⟩ := h
+        exact ⟨hc0, n, by simp [isScalar]; omega, rfl⟩
+      · rename_i hb
+        split at h
+        · simp at h
+        · rename_i c1 rest1
+          split at h
+          · simp at h
+          · rename_i hc1
+            split at h
+            · simp at h
+            · rename_i c2 rest2
+              split at h
+              · simp at h
+              · rename_i hc2
+                split at h
+                · simp at h
+                · rename_i n2 r3 h3
+                  obtain ⟨hc3, hn2⟩ := hexEscape_consumes h3
+                  split at h
+                  · simp at h
+                  · rename_i hn2r
+                    simp at h; obtain ⟨rfl, rfl⟩ := h
+                    simp at hc1 hc2
+                    refine ⟨?_, _, ?_, rfl⟩
+                    · exact hc0.trans ((Consumes.cons (by omega)).trans ((Consumes.cons (by omega)).trans hc3))
+                    · simp [isScalar]; omega
+
+theorem escape_spec {bs out rest : List Nat} (h : escape bs = .ok (out, rest)) :
+    Consumes bs rest ∧ ∃ c, isScalar c = true ∧ out = utf8 c := by
+  unfold escape at h
+  split at h
+  · simp at h
+  · rename_i e r
+    by_cases h0 : e = 34
+    · subst h0; simp at h; obtain ⟨rfl, rfl⟩ := h
+      exact ⟨Consumes.cons (by decide), 34, by decide, by simp [utf8]⟩
+    by_cases h1 : e = 92
+    · subst h1; simp at h; obtain ⟨rfl, rfl⟩ := h
+      exact ⟨Consumes.cons (by decide), 92, by decide, by simp [utf8]⟩
+    by_cases h2 : e = 47
+    · subst h2; simp at h; obtain ⟨rfl, rfl⟩ := h
+      exact ⟨Consumes.cons (by decide), 47, by decide, by simp [utf8]⟩
+    by_cases h3 : e = 98
+    · subst h3; simp at h; obtain ⟨rfl, rfl⟩ := h
+      exact ⟨Consumes.cons (by decide), 8, by decide, by simp [utf8]⟩
+    by_cases h4 : e = 102
+    · subst h4; simp at h; obtain ⟨rfl, rfl⟩ := h
+      exact ⟨Consumes.cons (by decide), 12, by decide, by simp [utf8]⟩
+    by_cases h5 : e = 110
+    · subst h5; simp at h; obtain ⟨rfl, rfl⟩ := h
+      exact ⟨Consumes.cons (by decide), 10, by decide, by simp [utf8]⟩
+    by_cases h6 : e = 114
+    · subst h6; simp at h; obtain ⟨rfl, rfl⟩ := h
+      exact ⟨Consumes.cons (by decide), 13, by decide, by simp [utf8]⟩
+    by_cases h7 : e = 116
+    · subst h7; simp at h; obtain ⟨rfl, rfl⟩ := h
+      exact ⟨Consumes.cons (by decide), 9, by decide, by simp [utf8]⟩
+    by_cases hu : e = 0x75
+    · subst hu; simp at h
+      obtain ⟨hc, hs⟩ := unicodeEscape_spec h
+      exact ⟨(Consumes.cons (by decide)).trans hc, hs⟩
+    · simp [h0, h1, h2, h3, h4, h5, h6, h7, hu] at h
+
+theorem utf8_startsOk (c : Nat) (tail : List Nat) : startsOk (utf8 c ++ tail) = true := by
+  unfold utf8
+  split
+  · simp [startsOk, nonCont]; omega
+  · split
+    · simp [startsOk, nonCont]
+    · split <;> (simp [startsOk, nonCont]; omega)
+
+theorem strBody_spec : ∀ (bs scratch rest : List Nat), strBody bs = .ok (scratch, rest) →
+    ∃ pre, bs = pre ++ rest ∧
+      ∀ p, u8run .acc (p ++ scratch) = .acc → u8run .acc (p ++ pre) = .acc := by
+  intro bs
+  fun_induction strBody bs <;> intro scratch rest h
+  case case2 r0 =>
+    simp at h; obtain ⟨rfl, rfl⟩ := h
+    exact ⟨[0x22], rfl, fun p hp => by simp at hp; exact u8_append hp (by decide)⟩
+  case case4 rest0 out r hesc s r' hx _ hlt ih =>
+    simp at h; obtain ⟨rfl, rfl⟩ := h
+    obtain ⟨pre', hr, hpre'⟩ := ih s r' hx
+    obtain ⟨⟨eb, heb, veb⟩, c, hc, rfl⟩ := escape_spec hesc
+    refine ⟨0x5C :: eb ++ pre', by rw [heb, hr]; simp, ?_⟩
+    intro p hp
+    rw [← List.append_assoc] at hp
+    have hp' : u8run .acc (p ++ (utf8 c ++ s)) = .acc := by rw [← List.append_assoc]; exact hp
+    obtain ⟨vp, vcs⟩ := u8_split hp' (utf8_startsOk c s)
+    have vs : u8run .acc s = .acc := by
+      rw [u8run_append, u8run_utf8 c hc] at vcs; exact vcs
+    have vpre' := hpre' [] (by simpa using vs)
+    simp only [List.nil_append] at vpre'
+    rw [show p ++ (0x5C :: eb ++ pre') = p ++ ([0x5C] ++ (eb ++ pre')) by simp]
+    exact u8_append vp (u8_append (by decide) (u8_append veb vpre'))
+  case case7 b0 rest0 h1 h2 h3 s r' hx ih =>
+    simp at h; obtain ⟨rfl, rfl⟩ := h
+    obtain ⟨pre', hr, hpre'⟩ := ih s r' hx
+    refine ⟨b0 :: pre', by rw [hr]; simp, ?_⟩
+    intro p hp
+    have := hpre' (p ++ [b0]) (by simpa using hp)
+    simpa using this
+  all_goals simp at h
+
+theorem parseStr_consumes {bs cps rest : List Nat} (h : parseStr bs = .ok (cps, rest)) :
+    Consumes bs rest := by
+  unfold parseStr at h
+  split at h
+  · simp at h
+  · rename_i scratch r hs
+    split at h
+    · simp at h
+    · rename_i cps' hd
+      simp at h; obtain ⟨_, rfl⟩ := h
+      obtain ⟨pre, hpre, hv⟩ := strBody_spec _ _ _ hs
+      exact ⟨pre, hpre, by simpa using hv [] (by simpa using utf8Decode_some_valid _ _ hd)⟩
+
+theorem keyStart_consumes {first : Bool} {c : Nat} {r kbs : List Nat} (h : keyStart first c r = .ok kbs) :
+    Consumes (c :: r) kbs := by
+  unfold keyStart at h
+  split at h
+  · split at h
+    · rename_i hc; simp at h; subst h; exact Consumes.cons (by omega)
+    · simp at h
+  · split at h
+    · rename_i hc
+      have hsk := skipWs_consumes r
+      split at h
+      · simp at h
+      · rename_i c2 r2 heq
+        split at h
+        · rename_i hc2
+          simp at h; subst h
+          rw [heq] at hsk
+          exact (Consumes.cons (by omega)).trans (hsk.trans (Consumes.cons (by omega)))
+        · split at h <;> simp at h
+    · simp at h
+
+theorem classify_ascii (b : Nat) (h : classify b ≠ .other) : b < 0x80 := by
+  unfold classify at h
+  repeat' split at h
+  all_goals first
+    | omega
+    | (rename_i hd; simp [isDigit] at hd; omega)
+    | simp at h
+
+theorem parse_consumes : ∀ (n : Nat) (bs : List Nat), bs.length ≤ n →
+    (∀ d v rest, parseValue d bs = .ok (v, rest) → Consumes bs rest) ∧
+    (∀ d first xs rest, parseElems d first bs = .ok (xs, rest) → Consumes bs rest) ∧
+    (∀ d first es rest, parseEntries d first bs = .ok (es, rest) → Consumes bs rest) := by
+  intro n
+  induction n with
+  | zero =>
+    intro bs hlen
+    have : bs = [] := by cases bs <;> simp_all
+    subst this
+    refine ⟨?_, ?_, ?_⟩
+    · intro d v rest h; rw [parseValue_eq] at h; simp [skipWs] at h
+    · intro d first xs rest h; rw [parseElems_eq] at h; simp [skipWs] at h
+    · intro d first es rest h; rw [parseEntries_eq] at h; simp [skipWs] at h
+  | succ n ih =>
+    have hval : ∀ (bs : List Nat), bs.length ≤ n + 1 →
+        ∀ d v rest, parseValue d bs = .ok (v, rest) → Consumes bs rest := by
+      intro bs hlen
+      have hsk := skipWs_consumes bs
+      have hskl := skipWs_length_le bs
+      intro d v rest h
+      rw [parseValue_eq] at h
+      split at h
+      · simp at h
+      · rename_i b r hs
+        rw [hs] at hsk hskl
+        have hrl : r.length ≤ n := by simp at hskl; omega
+        refine hsk.trans ?_
+        have hb : classify b ≠ .other → b < 0x80 := classify_ascii b
+        split at h
+        · rename_i hc; have hb := hb (by simp [hc])
+          split at h
+          · simp at h
+          · rename_i r' hi
+            simp at h; obtain ⟨_, rfl⟩ := h
+            exact (Consumes.cons hb).trans (ident_consumes (by simp) hi)
+        · rename_i hc; have hb := hb (by simp [hc])
+          split at h
+          · simp at h
+          · rename_i r' hi
+            simp at h; obtain ⟨_, rfl⟩ := h
+            exact (Consumes.cons hb).trans (ident_consumes (by simp) hi)
+        · rename_i hc; have hb := hb (by simp [hc])
+          split at h
+          · simp at h
+          · rename_i r' hi
+            simp at h; obtain ⟨_, rfl⟩ := h
+            exact (Consumes.cons hb).trans (ident_consumes (by simp) hi)
+        · rename_i hc; have hb := hb (by simp [hc])
+          split at h
+          · simp at h
+          · rename_i nn src r' hn
+            simp at h; obtain ⟨_, rfl⟩ := h
+            exact (Consumes.cons hb).trans (lexNumber_consumes hn)
+        · split at h
+          · simp at h
+          · rename_i nn src r' hn
+            simp at h; obtain ⟨_, rfl⟩ := h
+            exact lexNumber_consumes hn
+        · rename_i hc; have hb := hb (by simp [hc])
+          split at h
+          · simp at h
+          · rename_i cps r' hp
+            simp at h; obtain ⟨_, rfl⟩ := h
+            exact (Consumes.cons hb).trans (parseStr_consumes hp)
+        · rename_i hc; have hb := hb (by simp [hc])
+          split at h
+          · simp at h
+          · split at h
+            · simp at h
+            · rename_i xs r' hp
+              simp at h; obtain ⟨_, rfl⟩ := h
+              exact (Consumes.cons hb).trans ((ih r hrl).2.1 _ _ _ _ hp)
+        · rename_i hc; have hb := hb (by simp [hc])
+          split at h
+          · simp at h
+          · split at h
+            · simp at h
+            · rename_i es r' hp
+              simp at h; obtain ⟨_, rfl⟩ := h
+              exact (Consumes.cons hb).trans ((ih r hrl).2.2 _ _ _ _ hp)
+        · simp at h
+
+    intro bs hlen
+    have hsk := skipWs_consumes bs
+    have hskl := skipWs_length_le bs
+    refine ⟨hval bs hlen, ?_, ?_⟩
+    · -- elements
+      intro d first xs rest h
+      rw [parseElems_eq] at h
+      split at h
+      · simp at h
+      · rename_i c r hs
+        rw [hs] at hsk hskl
+        have hrl : r.length ≤ n := by simp at hskl; omega
+        refine hsk.trans ?_
+        split at h
+        · rename_i hc
+          simp at h; obtain ⟨_, rfl⟩ := h
+          exact Consumes.cons (by omega)
+        · split at h
+          · -- first element: the value parser runs on `c :: r` itself
+            split at h
+            · simp at h
+            · rename_i v r1 hv
+              split at h
+              · simp at h
+              · rename_i vs r2 hvs
+                simp at h; obtain ⟨_, rfl⟩ := h
+                have hcr : (c :: r).length ≤ n + 1 := by omega
+                have h1 := hval _ hcr _ _ _ hv
+                have hl1 := parseValue_length hv
+                have h2 := (ih r1 (by omega)).2.1 _ _ _ _ hvs
+                exact h1.trans h2
+          · split at h
+            · rename_i hc
+              have hsk2 := skipWs_consumes r
+              have hskl2 := skipWs_length_le r
+              split at h
+              · simp at h
+              · rename_i c2 r2 hs2
+                rw [hs2] at hsk2 hskl2
+                split at h
+                · simp at h
+                · split at h
+                  · simp at h
+                  · rename_i v r3 hv
+                    split at h
+                    · simp at h
+                    · rename_i vs r4 hvs
+                      simp at h; obtain ⟨_, rfl⟩ := h
+                      have h1 := hval (c2 :: r2) (by simp at hskl2 ⊢; omega) _ _ _ hv
+                      have hl1 := parseValue_length hv
+                      have h2 := (ih r3 (by simp at hskl2 hl1; omega)).2.1 _ _ _ _ hvs
+                      exact (Consumes.cons (by omega)).trans (hsk2.trans (h1.trans h2))
+            · simp at h
+    · -- entries
+      intro d first es rest h
+      rw [parseEntries_eq] at h
+      split at h
+      · simp at h
+      · rename_i c r hs
+        rw [hs] at hsk hskl
+        have hrl : r.length ≤ n := by simp at hskl; omega
+        refine hsk.trans ?_
+        split at h
+        · rename_i hc
+          simp at h; obtain ⟨_, rfl⟩ := h
+          exact Consumes.cons (by omega)
+        · split at h
+          · simp at h
+          · rename_i kbs hk
+            have hkc := keyStart_consumes hk
+            split at h
+            · simp at h
+            · rename_i k r3 hps
+              have hsc := parseStr_consumes hps
+              have hsl := parseStr_length hps
+              have hsk4 := skipWs_consumes r3
+              have hskl4 := skipWs_length_le r3
+              split at h
+              · simp at h
+              · rename_i c4 r4 hs4
+                rw [hs4] at hsk4 hskl4
+                split at h
+                · simp at h
+                · rename_i hc4
+                  simp at hc4
+                  split at h
+                  · simp at h
+                  · rename_i v r5 hv
+                    split at h
+                    · simp at h
+                    · rename_i es' r6 hes
+                      simp at h; obtain ⟨_, rfl⟩ := h
+                      have hkl : kbs.length ≤ (c :: r).length := by
+                        obtain ⟨pk, hpk, _⟩ := hkc; rw [hpk]; simp
+                      have hr4 : r4.length ≤ n := by simp at hskl4 hkl hskl; omega
+                      have h1 := (ih r4 hr4).1 _ _ _ hv
+                      have hl1 := parseValue_length hv
+                      have h2 := (ih r5 (by omega)).2.2 _ _ _ _ hes
+                      exact hkc.trans
+                        (hsc.trans (hsk4.trans ((Consumes.cons (by omega)).trans (h1.trans h2))))
+
+
+theorem Consumes.valid {bs rest : List Nat} (h : Consumes bs rest) (hr : u8run .acc rest = .acc) :
+    u8run .acc bs = .acc := by
+  obtain ⟨pre, rfl, hp⟩ := h
+  exact u8_append hp hr
+
+/-- A reader run that ends well has read well-formed UTF-8: bytes outside
+strings are ASCII, and each string passed serde_json's own check. -/
+theorem readerLoop_ok_valid : ∀ (n : Nat) (bs : List Nat), bs.length ≤ n →
+    (readerLoop bs).2 = .ok → u8run .acc bs = .acc := by
+  intro n
+  induction n with
+  | zero =>
+    intro bs hlen _
+    have : bs = [] := by cases bs <;> simp_all
+    subst this; rfl
+  | succ n ih =>
+    intro bs hlen h
+    rw [readerLoop_eq] at h
+    have hsk := skipWs_consumes bs
+    have hskl := skipWs_length_le bs
+    split at h
+    · rename_i hs; rw [hs] at hsk; exact hsk.valid rfl
+    · rename_i b r hs
+      rw [hs] at hsk hskl
+      split at h
+      · simp at h
+      · rename_i v rest hp
+        simp only at h
+        have hl := parseValue_length hp
+        have hc := (parse_consumes _ _ (Nat.le_refl _)).1 _ _ _ hp
+        have hv := ih rest (by simp at hl hskl; omega) h
+        exact (hsk.trans hc).valid hv
 
 
 end Xt.Json
